@@ -11,13 +11,25 @@
 #include "assumed_C01.h"
 
 #ifdef LOG_EC_COMMIT_SECKEY
-unsigned int g_cs_n; int g_cs_ret; secp256k1_scalar g_cs_in, g_cs_out; secp256k1_ge g_cs_p; uint32_t g_cs_s0, g_cs_s7; uint64_t g_cs_bytes;
-const unsigned char *g_cs_data; size_t g_cs_size; const secp256k1_hash_ctx *g_cs_hctx; const secp256k1_sha256 *g_cs_sha;
-#define EC_COMMIT_SECKEY_GHOST g_cs_n, g_cs_ret, g_cs_in, g_cs_out, g_cs_p, g_cs_s0, g_cs_s7, g_cs_bytes, g_cs_data, g_cs_size, g_cs_hctx, g_cs_sha
+struct { unsigned int n; int ret; secp256k1_scalar in, out; secp256k1_ge p; uint32_t s0, s7; uint64_t bytes;
+         const unsigned char *data; size_t size; const secp256k1_hash_ctx *hctx; const secp256k1_sha256 *sha; } g_cs;   /* one object = one assigns target */
+#define g_cs_n g_cs.n
+#define g_cs_ret g_cs.ret
+#define g_cs_in g_cs.in
+#define g_cs_out g_cs.out
+#define g_cs_p g_cs.p
+#define g_cs_s0 g_cs.s0
+#define g_cs_s7 g_cs.s7
+#define g_cs_bytes g_cs.bytes
+#define g_cs_data g_cs.data
+#define g_cs_size g_cs.size
+#define g_cs_hctx g_cs.hctx
+#define g_cs_sha g_cs.sha
+#define EC_COMMIT_SECKEY_GHOST g_cs
 static int secp256k1_ec_commit_seckey(const secp256k1_hash_ctx *hash_ctx, secp256k1_scalar* seckey, secp256k1_ge* pubp, secp256k1_sha256* sha, const unsigned char *data, size_t data_size)
 __CPROVER_requires(hash_ctx != NULL && __CPROVER_rw_ok(seckey, sizeof(*seckey)) && scalar_ok(seckey) && __CPROVER_rw_ok(pubp, sizeof(*pubp)) && ge_ok(pubp))
 __CPROVER_requires(__CPROVER_rw_ok(sha, sizeof(*sha)) && __CPROVER_r_ok(data, data_size))
-__CPROVER_assigns(*seckey, *pubp, *sha, g_cs_n, g_cs_ret, g_cs_in, g_cs_out, g_cs_p, g_cs_s0, g_cs_s7, g_cs_bytes, g_cs_data, g_cs_size, g_cs_hctx, g_cs_sha)
+__CPROVER_assigns(*seckey, *pubp, *sha, g_cs)
 __CPROVER_ensures(__CPROVER_return_value == 0 || __CPROVER_return_value == 1)
 __CPROVER_ensures(scalar_ok(seckey) && ge_ok(pubp))
 __CPROVER_ensures(g_cs_n == __CPROVER_old(g_cs_n) + 1 && g_cs_ret == __CPROVER_return_value && g_cs_data == data && g_cs_size == data_size && g_cs_hctx == hash_ctx && g_cs_sha == sha)
@@ -35,7 +47,7 @@ __CPROVER_requires(hash_ctx != NULL && __CPROVER_w_ok(commitp, sizeof(*commitp))
 __CPROVER_requires(__CPROVER_rw_ok(sha, sizeof(*sha)) && __CPROVER_r_ok(data, data_size))
 __CPROVER_assigns(*commitp, *sha, g_ec_n, g_ec_v0, g_ec_p0, g_ec_c0, g_ec_s0, g_ec_s7, g_ec_bytes, g_ec_data, g_ec_size, g_ec_hctx)
 __CPROVER_ensures(__CPROVER_return_value == 0 || __CPROVER_return_value == 1)
-__CPROVER_ensures(ge_ok(commitp))
+__CPROVER_ensures(ge_ok(commitp) && (__CPROVER_return_value == 1 ==> (ge_ok1(commitp) && !commitp->infinity)))
 __CPROVER_ensures(g_ec_n == __CPROVER_old(g_ec_n) + 1)
 __CPROVER_ensures(__CPROVER_old(g_ec_n) == 0 ==> (g_ec_v0 == __CPROVER_return_value && g_ec_data == data && g_ec_size == data_size && g_ec_hctx == hash_ctx &&
      GE_EQ(g_ec_p0, pubp) && GE_EQ(g_ec_c0, commitp) &&
